@@ -20,7 +20,9 @@ Record pipecase := {
   o_ntx : N;                    (* target transitions *)
   o_nparks : N;                 (* ... of which held *)
   o_quiet : bool;               (* joint quiescence reached *)
-  o_sync : list N               (* target ticks after Sync *)
+  o_sync : list N;              (* target ticks after Sync *)
+  o_evlog : list N;             (* per source call: invocations of the pipe's handlers *)
+  o_chglog : list bool          (* per source call: a piped source tick moved *)
 }.
 
 Record anycase := {
@@ -59,6 +61,7 @@ Definition mismatch_pipe (k : pipecase) : list N :=
   (if o_ntx k =? N.of_nat (t_ntx (c_tgt r)) then [] else [5]) ++
   (if o_nparks k =? N.of_nat (t_nparks (c_tgt r)) then [] else [6]) ++
   (if Bool.eqb (o_quiet k) (quiescent r) then [] else [7]) ++
+  (if list_N_eqb (o_evlog k) (c_evlog r) then [] else [9]) ++
   (if k_sync k
    then (if list_N_eqb (o_sync k) (sync_ticks c (o_src k) (o_tgt k)) then [] else [8])
    else []).
@@ -77,7 +80,9 @@ Definition violations_pipe (k : pipecase) : list N :=
    else if c_reord r then [10]
    else if fst (c_lossy r) then [11]
    else if snd (c_lossy r) then [14]
-   else if c_busydel r then [15] else [12]) ++
+   else if c_busydel r then [15]
+   else if c_vetoed r then [16] else [12]) ++
+  (if events_justified (o_evlog k) (o_chglog k) then [] else [60]) ++
   (if existsb (N.eqb 3) (o_srclog k) then [if p_flat c then 30 else 31] else []) ++
   (if existsb (N.eqb 1) (o_srclog k) then [32] else []) ++
   (if existsb (N.eqb 2) (o_srclog k) then [33] else []) ++
